@@ -127,7 +127,7 @@ def mk_series(spec):
     M = np.array(spec["mix"], dtype=float)
     for t in range(2, N + 50):
         x[:, t] = M[0] @ x[:, t - 1] + M[1] @ x[:, t - 2] + e[:, t]
-    return ts.TimeSeries(x[:, 50:], sampling_rate=spec["Fs"])
+    return ts.TimeSeries(x[:, 50:] * 2.0 ** spec.get("data_scale_exp", 0), sampling_rate=spec["Fs"])
 
 
 def run_an(spec):
@@ -491,6 +491,70 @@ def gen_multi_specs(ctx):
     return out
 
 
+
+# ------------------------------------------------------------------ homogeneity: re-run on rescaled input
+def _rel(a, b, tol=1e-10, atol=0.0):
+    a, b = np.asarray(a), np.asarray(b)
+    if a.shape != b.shape:
+        return False
+    if not b.size:
+        return True
+    fin = np.isfinite(b)
+    if not np.array_equal(np.isnan(a), np.isnan(b)) or not np.all(np.isfinite(a[fin])):
+        return False
+    if not np.any(fin):
+        return True
+    return float(np.max(np.abs(a[fin] - b[fin]))) <= tol * float(np.max(np.abs(b[fin]))) + atol
+
+
+def oracle_homog(spec, o, e):
+    """cov -> 2^(2e) cov: H, coherence and the three causality measures unchanged, spectral matrices scale;
+    analyzer: data -> 2^e data leaves every result unchanged.  An absolute threshold in the code fails this."""
+    k = spec["kind"]
+    if "err" in o:
+        return None
+    if k == "gc":
+        f_ = 4.0 ** e
+        sp = dict(spec)
+        sp["cov"] = [[hx(uhx(v) * f_) for v in row] for row in spec["cov"]]
+        if sp.get("variant") == "intcov":
+            sp["variant"] = "plain"
+        o2 = run_gc(sp)
+        what = None
+        if "err" in o2:
+            what = "raises on the rescaled covariance: %s" % o2["err"]
+        else:
+            for nm in ("Hw", "coh", "inter", "fx2y", "fy2x", "fxy"):
+                if not _rel(o2[nm], o[nm], atol=1e-12):
+                    what = "%s changes when the covariance is multiplied by 4^%d" % (nm, e)
+                    break
+            else:
+                for nm in ("Sw", "Sw2"):
+                    if not _rel(o2[nm], o[nm] * f_):
+                        what = "%s does not scale with the covariance (x 4^%d)" % (nm, e)
+                        break
+        key = "C12/homogeneity/granger_causality_xy"
+    elif k == "an":
+        sp = dict(spec, data_scale_exp=spec.get("data_scale_exp", 0) + e)
+        o2 = run_an(sp)
+        what = None
+        if "err" in o2:
+            what = "raises on the rescaled data: %s" % o2["err"]
+        else:
+            for nm in ("xy", "yx", "sim"):
+                if not _rel(o2[nm], o[nm], tol=1e-8, atol=1e-11):
+                    what = "analyzer %s changes when the data are multiplied by 2^%d" % (nm, e)
+                    break
+        key = "C12/homogeneity/GrangerAnalyzer"
+    else:
+        return None
+    if what:
+        f = Fail(key, what, None, "scale-invariant result")
+        f.replay = {"entry_point": key, "scale_exponent": e}
+        return f
+    return None
+
+
 RUN = {"gc": run_gc, "an": run_an, "multi": run_multi}
 ORACLE = {"gc": oracle_gc, "an": oracle_an, "multi": oracle_multi}
 CASES = {"gc": gc_cases, "an": an_cases, "multi": multi_cases}
@@ -530,6 +594,22 @@ def run(ctx):
                         + (" (several analyzers, reads in the order spec.reads)" if spec["kind"] == "multi" else ""),
                         "model_disagrees": i in bad_specs}
             ctx.report_fail(f, Case("", {"spec": spec}))
+    # homogeneity: every call re-run with the covariance multiplied by 4^-45 / 4^+35, analyzers with the data by 2^-45 / 2^+35
+    nh = 0
+    for i, (spec, o) in enumerate(results):
+        if spec["kind"] == "gc":
+            cmax = max(abs(uhx(v)) for row in spec["cov"] for v in row)
+            es = [e for e in (-45, 35) if 2.0 ** -200 < cmax * 4.0 ** e < 2.0 ** 200]
+        elif spec["kind"] == "an":
+            es = [(-45, 35)[i % 2]]
+        else:
+            continue
+        for e in es:
+            nh += 1
+            f = oracle_homog(spec, o, e)
+            if f is not None:
+                ctx.report_fail(f, Case("", {"spec": spec, "scale_exponent": e}))
+    ctx.extra["homogeneity_reruns"] = nh
     # purity: function-level calls repeated after all the other calls must be bit-identical
     gidx = [i for i, (sp, _) in enumerate(results) if sp["kind"] == "gc"]
     nrep = 0
@@ -548,7 +628,8 @@ def run(ctx):
     ctx.extra["model_impl_disagreements"] = len(bad)
     ctx.extra["oracle_checked_inputs"] = len(results)
     ctx.extra["oracle_only_inputs"] = sum(1 for sp, _ in results if sp.get("oracle_only"))
-    ctx.extra["rule"] = ("histories: two or three GrangerAnalyzer objects on different data / ij lists / n_freqs alive at once with interleaved "
+    ctx.extra["rule"] = ("homogeneity: every function-level call re-run with the covariance multiplied by 4^-45 and 4^+35 (H, coherence and the "
+                         "causalities unchanged, spectral matrices scale), every analyzer with the data multiplied by 2^-45 or 2^+35; histories: two or three GrangerAnalyzer objects on different data / ij lists / n_freqs alive at once with interleaved "
                          "shuffled reads, or strictly sequential, each result judged against the pairwise function on its own model, "
                          "spectral_matrix key set = requested pairs; function-level calls repeated at the end must be bit-identical; "
                          "seeded generator: stable bivariate AR coefficient sets of order 1..6 (random, three scales, couplings both / "
